@@ -419,8 +419,19 @@ def diagnostics_of(files: dict, options=None):
         ws.close()
 
 
+# every form of the IMPORT statement in interface bodies of a valid module (checked with each generated program)
+IMPORT_FORMS = ("module dm5\n  implicit none\n  type :: ta\n    integer :: i\n  end type ta\n  type :: tb\n    integer :: j\n  end type tb\n"
+                "  integer, parameter :: kk = 4\n  interface\n    subroutine two_imports(x, y, z)\n      import :: ta\n      import tb, kk\n"
+                "      type(ta) :: x\n      type(tb) :: y\n      integer(kk) :: z\n    end subroutine two_imports\n"
+                "    subroutine three_imports(x, y)\n      import :: kk\n      import :: tb\n      import :: ta\n      type(ta) :: x\n      type(tb) :: y\n"
+                "    end subroutine three_imports\n    subroutine import_everything(x)\n      import\n      type(tb) :: x\n    end subroutine import_everything\n"
+                "    subroutine import_all(x)\n      import, all\n      type(ta) :: x\n    end subroutine import_all\n"
+                "    subroutine import_only(x)\n      import, only: tb\n      type(tb) :: x\n    end subroutine import_only\n  end interface\nend module dm5\n")
+
+
 def check_valid(p: Prog):
     files = {f: text_of(ls) for f, ls in p.files.items()}
+    files["dm5.f90"] = IMPORT_FORMS
     diags, errs = diagnostics_of(files)
     if errs:
         return {"problem": "server error", "errors": errs, "files": files}
